@@ -12,6 +12,8 @@ pub struct AllocTracker {
 #[derive(Debug)]
 struct AllocTrackerInner {
     bytes_left: AtomicUsize,
+    #[cfg(jxl_oxide_verif)]
+    verif: verif::VerifCounters,
 }
 
 impl AllocTracker {
@@ -20,6 +22,8 @@ impl AllocTracker {
         Self {
             inner: Arc::new(AllocTrackerInner {
                 bytes_left: AtomicUsize::new(bytes_left),
+                #[cfg(jxl_oxide_verif)]
+                verif: Default::default(),
             }),
         }
     }
@@ -29,6 +33,10 @@ impl AllocTracker {
     /// Returns an error if the allocation exceeds the current limit.
     pub fn alloc<T>(&self, count: usize) -> Result<AllocHandle, crate::OutOfMemory> {
         let bytes = count * std::mem::size_of::<T>();
+        #[cfg(jxl_oxide_verif)]
+        if self.inner.verif.should_fail() {
+            return Err(crate::OutOfMemory::new(bytes));
+        }
         let result = self.inner.bytes_left.fetch_update(
             Ordering::Relaxed,
             Ordering::Relaxed,
@@ -38,6 +46,8 @@ impl AllocTracker {
         match result {
             Ok(prev) => {
                 tracing::trace!(bytes, left = prev - bytes, "Created allocation handle");
+                #[cfg(jxl_oxide_verif)]
+                self.inner.verif.on_alloc(bytes);
                 Ok(AllocHandle {
                     bytes,
                     inner: Arc::clone(&self.inner),
@@ -86,6 +96,8 @@ impl Drop for AllocHandle {
         let bytes = self.bytes;
         let prev = self.inner.bytes_left.fetch_add(bytes, Ordering::Relaxed);
         tracing::trace!(bytes, left = prev + bytes, "Released allocation handle");
+        #[cfg(jxl_oxide_verif)]
+        self.inner.verif.on_release(bytes);
         self.bytes = 0;
     }
 }
@@ -95,6 +107,89 @@ impl AllocHandle {
     pub fn tracker(&self) -> AllocTracker {
         AllocTracker {
             inner: Arc::clone(&self.inner),
+        }
+    }
+}
+
+/// Verification hooks (H1): allocation counters and a deterministic "fail every tracked
+/// allocation from the k-th on" switch. Compiled only with `--cfg jxl_oxide_verif`.
+#[cfg(jxl_oxide_verif)]
+mod verif {
+    use std::sync::atomic::{AtomicUsize, Ordering};
+
+    #[derive(Debug)]
+    pub(super) struct VerifCounters {
+        allocs: AtomicUsize,
+        fail_from: AtomicUsize,
+        outstanding: AtomicUsize,
+        high_water: AtomicUsize,
+        failed: AtomicUsize,
+    }
+
+    impl Default for VerifCounters {
+        fn default() -> Self {
+            Self {
+                allocs: AtomicUsize::new(0),
+                fail_from: AtomicUsize::new(usize::MAX),
+                outstanding: AtomicUsize::new(0),
+                high_water: AtomicUsize::new(0),
+                failed: AtomicUsize::new(0),
+            }
+        }
+    }
+
+    impl VerifCounters {
+        /// Counts one `alloc` call; returns `true` if it has to fail.
+        pub(super) fn should_fail(&self) -> bool {
+            let ordinal = self.allocs.fetch_add(1, Ordering::Relaxed);
+            if ordinal >= self.fail_from.load(Ordering::Relaxed) {
+                self.failed.fetch_add(1, Ordering::Relaxed);
+                true
+            } else {
+                false
+            }
+        }
+
+        pub(super) fn on_alloc(&self, bytes: usize) {
+            let now = self.outstanding.fetch_add(bytes, Ordering::Relaxed) + bytes;
+            self.high_water.fetch_max(now, Ordering::Relaxed);
+        }
+
+        pub(super) fn on_release(&self, bytes: usize) {
+            self.outstanding.fetch_sub(bytes, Ordering::Relaxed);
+        }
+    }
+
+    impl super::AllocTracker {
+        /// Number of `alloc` calls made on this tracker so far.
+        pub fn verif_allocs(&self) -> usize {
+            self.inner.verif.allocs.load(Ordering::Relaxed)
+        }
+
+        /// Makes every `alloc` call whose ordinal (0-based) is `>= k` fail with `OutOfMemory`.
+        /// `usize::MAX` disables the switch.
+        pub fn verif_fail_from(&self, k: usize) {
+            self.inner.verif.fail_from.store(k, Ordering::Relaxed);
+        }
+
+        /// Number of `alloc` calls failed by the switch.
+        pub fn verif_failed(&self) -> usize {
+            self.inner.verif.failed.load(Ordering::Relaxed)
+        }
+
+        /// Bytes currently held by live allocation handles.
+        pub fn verif_outstanding(&self) -> usize {
+            self.inner.verif.outstanding.load(Ordering::Relaxed)
+        }
+
+        /// Maximum of `verif_outstanding` ever observed.
+        pub fn verif_high_water(&self) -> usize {
+            self.inner.verif.high_water.load(Ordering::Relaxed)
+        }
+
+        /// Bytes currently left in the budget.
+        pub fn verif_bytes_left(&self) -> usize {
+            self.inner.bytes_left.load(Ordering::Relaxed)
         }
     }
 }
